@@ -44,7 +44,7 @@ CLAIMED = {
     design="DESIGN.md section 5 C02"),
  "C13": dict(
     text="Memory safety and schedule independence: safety contracts with every callee inlined for dym_get_dynamical_matrix_at_q, dym_transform_dynmat_to_fc, phpy_tetrahedron_method_dos (fixed-point count lemma), phpy_get_tetrahedra_frequenies, ddm_get_derivative_dynmat_at_q (without NAC), multiply_borns, phpy_set_smallest_vectors_sparse (no bound on ties), and inside the functional contracts of phpy_get_thermal_properties, phpy_set_smallest_vectors_dense and the others: every array subscript is de-flattened against the logical shape the Python call site passes and proved in range, divisions are proved non-zero, and for each omp parallel for the scalars assigned in the body are proved private/local and every write disjoint from every access of another iteration (hence the result does not depend on the schedule or the number of threads). Same-result-as-reference: the functional contracts of the kernels of C01, C02, C05, C06, C07, C08, C10, C11 (C == Python proved there), C12 are re-proved in this check.",
-    note=TRUST + "Kernels not yet under a contract: phpy_compute_permutation, get_dd / dym_get_recip_dipole_dipole (Gonze-Lee reciprocal sum), phpy_perm_trans_symmetrize_compact_fc driver, the NAC branch of the derivative kernel, the two loops over q-points of dym_dynamical_matrices_with_dd_openmp_over_qpoints (their bodies are kernels under contract that write only through their first argument, offset by the q-point index; disjointness of those offsets is not decided), rgd_* beyond the index arithmetic of C11. 8 of the 10 omp pragmas in c/*.c carry race obligations. Int overflow is outside the model (A-INT). The nanobind glue c/_phonopy.cpp is read, not verified. Finding E15 (sparse shortest-vector kernel wrote past its 27 slots) repaired by a fix: commit.",
+    note=TRUST + "Kernels not yet under a contract: phpy_compute_permutation, get_dd / dym_get_recip_dipole_dipole (Gonze-Lee reciprocal sum), phpy_perm_trans_symmetrize_compact_fc driver, the NAC branch of the derivative kernel, the Wang loop over q-points of dym_dynamical_matrices_with_dd_openmp_over_qpoints (the no-NAC loop is covered: callee accesses are confined to its view dynamical_matrices[i] / qpoints[i]) and its Gonze-Lee configuration, rgd_* beyond the index arithmetic of C11. 9 of the 10 omp pragmas in c/*.c carry race obligations. Int overflow is outside the model (A-INT). The nanobind glue c/_phonopy.cpp is read, not verified. Finding E15 (sparse shortest-vector kernel wrote past its 27 slots) repaired by a fix: commit.",
     technique="deductive verification: bounds/race VCs from symbolic execution of the inlined kernels, z3",
     design="DESIGN.md section 5 C13"),
  "C17": dict(
